@@ -25,7 +25,7 @@ for root,dirs,files in os.walk(S+'/repo'):
             ov[o]=p
 json.dump(ov,open(S+'/overlay.json','w'))
 PY
-out="$(VERIF_TIER=${VERIF_TIER:-quick} VERIF_OVERLAY="$S/overlay.json" VERIF_C_REPO="$S/repo" VERIF_DIR="$S/verif" /verif/bin/ddpverif "$prop" 2>&1)"
+out="$(VERIF_TIER=${VERIF_TIER:-quick} VERIF_OVERLAY="$S/overlay.json" VERIF_C_REPO="$S/repo" VERIF_DIR="$S/verif" ${VERIF_BIN:-/verif/bin/ddpverif} "$prop" 2>&1)"
 code=$?
 echo "$out" | grep -B1 "^VIOLATION\|LOAD FAILED\|PANIC" | grep -v "^--" | sed "s#$S/##g" | head -${MUT_LINES:-12}
 if echo "$out" | grep -q "LOAD FAILED"; then exit 2; fi
